@@ -55,6 +55,7 @@ class StubsStringGenerator:
         self.naming_convention = NamingConvention.SAFE_DS if convert_identifiers else NamingConvention.PYTHON
         self.classes_outside_package: set[str] = set()
         self.reexport_modules: dict[str, list[Class | Function]] = defaultdict(list)
+        self.reexport_element_id = ""
 
     def __call__(self, module: Module) -> tuple[str, str]:
         self._set_module_id(module.id)
@@ -84,6 +85,7 @@ class StubsStringGenerator:
 
                 module_name = element.name
                 self._set_module_id(f"{module_id}/{module_name}")
+                self.reexport_element_id = element.id
 
                 # Create module header
                 package_info = ".".join(self._get_module_id().split("/")[:-1])
@@ -1079,6 +1081,10 @@ class StubsStringGenerator:
             return
 
         module_id = self._get_module_id(get_actual_id=True).replace("/", ".")
+        if self.currently_creating_reexport_data:
+            # The file of a reexported class or function only contains that element, everything else has to be imported
+            module_id = self.reexport_element_id.replace("/", ".")
+
         # The type has to lie in the module itself, a module "pkg.ab" is not part of a module "pkg.a"
         if import_qname != module_id and not import_qname.startswith(f"{module_id}."):
             # We need the full path for an import from the same package, but we sometimes don't get enough information,
